@@ -120,7 +120,78 @@ struct St {
     tmp: Vec<std::path::PathBuf>,
 }
 
+#[cfg(feature = "asyncvfs")]
+mod adrv {
+    use super::{hex, unhex};
+    use async_std::io::prelude::{ReadExt, SeekExt, WriteExt};
+    use async_std::task::block_on;
+    use std::collections::HashMap;
+    use std::io::SeekFrom;
+    use vfs::async_vfs::{AsyncMemoryFS, AsyncVfsPath, SeekAndRead};
+    use vfs::error::VfsErrorKind;
+    use vfs::VfsError;
+
+    #[derive(Default)]
+    pub struct ASt {
+        pub paths: HashMap<String, AsyncVfsPath>,
+        pub readers: HashMap<String, Box<dyn SeekAndRead + Send + Unpin>>,
+    }
+    fn err(e: &VfsError) -> String {
+        let k = match e.kind() {
+            VfsErrorKind::IoError(io) => format!("IoError({:?})", io.kind()),
+            VfsErrorKind::AsyncIoError(io) => format!("AsyncIoError({:?})", io.kind()),
+            VfsErrorKind::FileNotFound => "FileNotFound".into(),
+            VfsErrorKind::InvalidPath => "InvalidPath".into(),
+            VfsErrorKind::Other(_) => "Other".into(),
+            VfsErrorKind::DirectoryExists => "DirectoryExists".into(),
+            VfsErrorKind::FileExists => "FileExists".into(),
+            VfsErrorKind::NotSupported => "NotSupported".into(),
+        };
+        format!("err:{}:{}", k, hex(e.path().as_bytes()))
+    }
+    /// returns None when the line does not concern an async path/handle
+    pub fn exec(st: &mut ASt, t: &[&str]) -> Option<String> {
+        match t[0] {
+            "fs" if t[2] == "amem" => { st.paths.insert(t[1].into(), AsyncVfsPath::new(AsyncMemoryFS::new())); Some("ok".into()) }
+            "join" if st.paths.contains_key(t[2]) => Some(match st.paths[t[2]].join(String::from_utf8(unhex(t[3])).unwrap()) {
+                Ok(v) => { let s = format!("ok:{}", hex(v.as_str().as_bytes())); st.paths.insert(t[1].into(), v); s }
+                Err(e) => err(&e),
+            }),
+            "write" if st.paths.contains_key(t[1]) => Some(block_on(async {
+                match st.paths[t[1]].create_file().await {
+                    Ok(mut h) => match h.write_all(&unhex(t[2])).await { Ok(()) => { drop(h); "ok".to_string() } Err(e) => format!("ioerr:{:?}", e.kind()) },
+                    Err(e) => err(&e),
+                }
+            })),
+            "hopen" if st.paths.contains_key(t[2]) => Some(block_on(async {
+                match st.paths[t[2]].open_file().await { Ok(h) => { st.readers.insert(t[1].into(), h); "ok".to_string() } Err(e) => err(&e) }
+            })),
+            "hread" if st.readers.contains_key(t[1]) => Some(block_on(async {
+                let n: usize = t[2].parse().unwrap();
+                let mut buf = vec![0u8; n];
+                match st.readers.get_mut(t[1]).unwrap().read(&mut buf).await { Ok(k) => format!("ok:{}:{}", k, hex(&buf[..k.min(n)])), Err(e) => format!("ioerr:{:?}", e.kind()) }
+            })),
+            "hseek" if st.readers.contains_key(t[1]) => Some(block_on(async {
+                let off: i128 = t[3].parse().unwrap();
+                let sf = match t[2] { "start" => SeekFrom::Start(off as u64), "end" => SeekFrom::End(off as i64), _ => SeekFrom::Current(off as i64) };
+                match st.readers.get_mut(t[1]).unwrap().seek(sf).await { Ok(n) => format!("ok:{}", n), Err(e) => format!("ioerr:{:?}", e.kind()) }
+            })),
+            "hdrop" if st.readers.contains_key(t[1]) => { st.readers.remove(t[1]); Some("ok".into()) }
+            _ => None,
+        }
+    }
+}
+
+#[cfg(feature = "asyncvfs")]
+thread_local! { static ASYNC: std::cell::RefCell<adrv::ASt> = std::cell::RefCell::new(adrv::ASt::default()); }
+
 fn exec(st: &mut St, t: &[&str]) -> String {
+    #[cfg(feature = "asyncvfs")]
+    {
+        if let Some(r) = ASYNC.with(|a| adrv::exec(&mut a.borrow_mut(), t)) {
+            return r;
+        }
+    }
     let p = |st: &St, k: &str| -> VfsPath { st.paths.get(k).unwrap_or_else(|| panic!("SCRIPT: unknown path var {}", k)).clone() };
     match t[0] {
         "fs" => {
